@@ -70,6 +70,11 @@ def variations():
             out.append(["dtype", loc, k])
     for loc in ("A", "B", "B/C"):
         out.append(["stype", loc])
+    # Sections and Properties have separate name spaces: the parent of the Section at loc also owns a Property of
+    # that name (in dest, in src, in both)
+    for loc in ("A", "B", "B/C"):
+        for side in ("dest", "src", "both"):
+            out.append(["xkind", loc, side])
     return out
 
 
@@ -133,6 +138,14 @@ def apply_var(dest, src, var):
             s.update(dtype="string", values=["c"])
     elif k == "stype":
         find_sec(src, var[1])["type"] = "other"
+    elif k == "xkind":
+        _, loc, side = var
+        parent_loc, _, name = loc.rpartition("/")
+        for which, root in (("dest", dest), ("src", src)):
+            if side in (which, "both"):
+                par = find_sec(root, parent_loc)
+                if not any(p["name"] == name for p in par["properties"]):
+                    par["properties"].append(P(name, "string", ["twin-of-section-%s" % which]))
 
 
 def gen_cases(tier):
@@ -151,6 +164,16 @@ def gen_cases(tier):
                 continue        # two states of one attribute at one place exclude each other
             for order in pair_orders:
                 cases.append({"vars": [a, b], "order": order, "strict": strict})
+        if tier == "thorough":
+            # triples over every third variation (all kinds of variation are represented)
+            core = vs[::3]
+            for a, b, c in itertools.combinations(core, 3):
+                trio = (a, b, c)
+                if any(x[0] == y[0] and x[1] == y[1] and (x[0] in ("unc", "dtype", "stype") or x[2] == y[2])
+                       for x, y in itertools.combinations(trio, 2)):
+                    continue
+                for order in (0, 5):
+                    cases.append({"vars": [a, b, c], "order": order, "strict": strict})
     return cases
 
 
@@ -172,6 +195,8 @@ def var_class(v):
         return "uncertainty:%r-vs-%r" % (v[2], v[3])
     if v[0] == "dtype":
         return "dtype:%s" % v[2]
+    if v[0] == "xkind":
+        return "property-named-like-section:%s@depth%d" % (v[2], v[1].count("/") + 1)
     return "section-type-clash@depth%d" % (v[1].count("/") + 1)
 
 
@@ -234,7 +259,8 @@ def check(tier):
     ])
     cases = gen_cases(tier)
     run.bounds = {"variations": len(variations()), "deviation_bound": 2, "source_child_orders": 6,
-                  "orders_for_pairs": 6 if tier == "thorough" else 2}
+                  "orders_for_pairs": 6 if tier == "thorough" else 2,
+                  "variation_deviations": 2 if tier == "quick" else "2 complete + 3 over every third variation"}
     run.layer("pairs", cases=len(cases))
     par.run_cases(run, "checks.c13", cases, nchunks=par.JOBS * 16)
     return run.finish(reproduce=lambda f: replay(f))
